@@ -14,7 +14,7 @@ from .checklib import Check, seed
 from .peers import H11Peer
 from .simnet import FakeSSLContext, SimBackend, SimNet, World
 
-HOST_IN = {"name": "example.com", "mixed": "ExAmple.COM", "ipv4": "127.0.0.1", "ipv6": "[::1]"}
+HOST_IN = {"name": "example.com", "mixed": "ExAmple.COM", "ipv4": "127.0.0.1", "ipv6": "[::1]", "ipv6mixed": "[2001:DB8::A]"}
 PATH_IN = {"empty": "", "root": "/", "segs": "/a/b", "lastparam": "/a/b;p=1", "innerparam": "/a;p=1/b", "dots": "/a/./../b", "pct": "/a%20b/%7E"}
 QUERY_IN = {"none": "", "empty": "?", "plain": "?q=1", "semi": "?q=1;r=2", "qmark": "?q=1?x"}
 TOKENS = ["/a%20b", "/%7E", "/..", "/.", "/a", "/b", ";p=1", "q=1;r=2", "q=1?x", "q=1", "?", "/"]
@@ -26,7 +26,7 @@ def shapes(tier, rng):
         scheme=["http", "https", "ws", "wss"],
         upper=[False, True],
         user=["none", "user", "userpw"],
-        hostk=["name", "mixed", "ipv4", "ipv6"],
+        hostk=["name", "mixed", "ipv4", "ipv6", "ipv6mixed"],
         port=["none", "default", "otherdefault", "custom"],
         path=list(PATH_IN),
         query=list(QUERY_IN),
